@@ -464,9 +464,12 @@ def rules(ck, P):
                 ck.ok("R-HANDLER-TOTAL", s.key, "reviewed: " + e["reason"], s.loc)
                 continue
             sh_ = t19.get(s.key) or tst.get(s.key)
-            if sh_ is not None and lapsed is None and census.entry_lapsed(sh_, s) is None:
-                stats["shared"] += 1
-                continue
+            if sh_ is not None and lapsed is None:
+                from . import c19 as _c19
+                lapsed = census.entry_lapsed(sh_, s) or _c19.validate_witness(P, sh_, s)
+                if lapsed is None:
+                    stats["shared"] += 1
+                    continue
             stats["violation"] += 1
             chain = P.chain(seen, fq)
             ck.violation("R-HANDLER-TOTAL", s.key, "panic-capable %s site `%s` is reachable from HTTP handler %s and is not shown to be independent of the request: a panic "
